@@ -94,6 +94,15 @@ class Ctx:
             self.bad(rule, fn, construct, why_bad, where, detail)
         return cond
 
+    def fixture(self, rule, name, fired, expect=True, what=""):
+        """a must-fire (expect=True) / must-stay-silent (expect=False) example under /verif/fixtures; a fixture that
+        does not behave means the rule's recogniser is blind or over-eager: analysis broken"""
+        ok = bool(fired) == bool(expect)
+        o = Ob(rule, "fixture:" + name, "must-fire" if expect else "must-stay-silent", OK if ok else BROKEN,
+               what if ok else "fixture %s: the rule %s on it" % (name, "did not fire" if expect else "fired"), "/verif/fixtures/facts_fixtures.cpp", None, True)
+        self.obs.append(o)
+        return ok
+
     def need(self, rule, what, found, minimum):
         """instance-count guard: fewer recognised instances than confirmed by hand = analysis broken"""
         self.mins[rule + ":" + what] = (minimum, found)
